@@ -150,6 +150,18 @@ func runC16(c *harness.Ctx, k int) {
 			q{"nested-dot", "$.o." + spec.DotName(key), nested, hit},
 		)
 	}
+	if k%2 == 1 {
+		// the quoted tokens of the bracket spellings first appear in ANOTHER position: as string literals of a filter (whose escaping
+		// rules differ); whatever the library remembers about a token text there must not change what the name selectors below do
+		for _, x := range qs[:2] {
+			if strings.HasPrefix(x.text, "$[") && strings.HasSuffix(x.text, "]") {
+				tok := x.text[2 : len(x.text)-1]
+				lib.Retrieve("$[?(@=="+tok+")]", []interface{}{"x"})
+				lib.Retrieve("$[?(@.a=~/"+tok[1:len(tok)-1]+"/)]", []interface{}{"x"})
+				c.Cover("position:same-token-first-seen-as-filter-literal")
+			}
+		}
+	}
 	for _, x := range qs {
 		c.Cover("spelling:" + x.name)
 		o := lib.Retrieve(x.text, x.doc)
